@@ -72,8 +72,12 @@ type actState struct {
 	starts, ends int
 	flying       bool
 	overrunFly   bool
-	lastEnd      Outcome   // outcome logged by the last End
-	endPending   bool      // that End has not yet been followed by a write of the action
+	lastEnd      Outcome // outcome logged by the last End
+	endPending   bool    // that End has not yet been followed by a write of the action
+	timeout      time.Duration
+	lastWriteAt  time.Time // when the previous write of this action was logged
+	startsAtLW   int       // starts at that moment
+	lastN        int       // attempts that write showed
 	lastDeadline time.Time // deadline of the context of the last invocation (zero = none)
 }
 
@@ -102,6 +106,7 @@ type PlanRun struct {
 	probes       []int
 	dirLog       []string
 	lateStarts   int
+	lateNever    int // the engine timed an attempt out before the worker pool had entered the plugin (no Start at all)
 	lateEnds     int // an invocation logged a non-overrun End before its deadline, yet the engine recorded a timeout AFTER the deadline
 	startErr     string
 	startOK      int  // Start calls that returned nil
@@ -339,6 +344,18 @@ func logWriteTO(id uuid.UUID, c Cell, reason int, err error, timedOut bool) {
 			// at the answer only after the deadline: a disturbance like a late start, not an observation. The same
 			// signature BEFORE the deadline is not excused.
 			r.lateEnds++
+		}
+		if a != nil {
+			// The engine recorded its own timeout for an attempt whose plugin invocation was never entered (no Start
+			// since the previous write of the action, nothing in flight): the worker pool had not reached the plugin
+			// when the deadline fired. A load disturbance iff a whole timeout has elapsed since that previous write
+			// (the attempt's deadline starts after it); earlier than that it is not excused.
+			// Only a write that records a NEW attempt counts (the End state re-writes every action much later).
+			if timedOut && c.St == int(workflow.Running) && c.N == a.lastN+1 && !pending && !a.flying && a.starts == a.startsAtLW && !a.lastWriteAt.IsZero() &&
+				a.timeout > 0 && time.Since(a.lastWriteAt) >= a.timeout {
+				r.lateNever++
+			}
+			a.lastWriteAt, a.startsAtLW, a.lastN = time.Now(), a.starts, c.N
 		}
 		r.logLocked(Event{Kind: 'W', Obj: e.ref, C: c, Reason: reason})
 		m := r.written[e.ref.Term]
